@@ -547,15 +547,25 @@ fn lcm_den(vals: &[&Q]) -> BigInt {
 /// substitution before it is returned; a failed certificate is a harness bug and panics.
 pub fn width(dim: usize, rows: &[Row]) -> Width {
     let mut live: Vec<&Row> = Vec::with_capacity(rows.len());
+    // A zero row 0 <= b with b < 0 makes the set empty whatever x is. It has no normal vector to
+    // normalize by, so |b| itself is taken as the amount of emptiness: below tau it is the
+    // tolerance band (a solver with tolerance 1e-8 calls 0 <= -7e-9 feasible), reported as a cap.
+    let mut zero_row_cap: Option<Q> = None;
     for r in rows {
         assert_eq!(r.a.len(), dim);
         if r.is_zero_row() {
             if r.b.is_neg() {
-                return Width {
-                    trivially_empty: true,
-                    rho: Q::int(-1),
-                    center: vec![Q::zero(); dim],
-                };
+                if r.b <= tau().neg() {
+                    return Width {
+                        trivially_empty: true,
+                        rho: Q::int(-1),
+                        center: vec![Q::zero(); dim],
+                    };
+                }
+                zero_row_cap = Some(match zero_row_cap {
+                    None => r.b.clone(),
+                    Some(c) => Q::min(&c, &r.b),
+                });
             }
         } else {
             live.push(r);
@@ -564,7 +574,7 @@ pub fn width(dim: usize, rows: &[Row]) -> Width {
     if live.is_empty() {
         return Width {
             trivially_empty: false,
-            rho: Q::one(),
+            rho: zero_row_cap.unwrap_or_else(Q::one),
             center: vec![Q::zero(); dim],
         };
     }
@@ -673,6 +683,10 @@ pub fn width(dim: usize, rows: &[Row]) -> Width {
     assert!(sum_w == Q::one(), "width LP: dual certificate (t column) failed");
     assert!(sum_b == rho, "width LP: duality gap");
 
+    let rho = match zero_row_cap {
+        Some(c) => Q::min(&rho, &c),
+        None => rho,
+    };
     Width {
         trivially_empty: false,
         rho,
